@@ -309,3 +309,33 @@ def sweep_cases(rng, fam, mode, N):
             c.ops.append(f"{op} {hx(rb(rng, L))}" + (f" {hx(rb_nz(rng, L))}" if op.endswith("b") else ""))
         out.append(c)
     return out
+
+
+def manycalls_case(rng, fam, mode, ncalls):
+    """one object, several hundred small calls (anything that counts calls, or wraps a per-call index)"""
+    base = "cbc-enc" if fam in ("buf", "cts") else mode
+    bs, w = small_matrix(rng, base, 8 if fam in ("block", "buf") else 16)
+    key = rb(rng, 16)
+    mbs = mode_bs(mode, bs)
+    if fam == "block":
+        c = Case(fam, mode, bs, w, key, rb(rng, ivlen(mode, bs)), cls_many=ncalls)
+        for i in range(ncalls):
+            c.ops.append(f"block {hx(rb(rng, mbs))}" if rng.random() < 0.7 else f"blocks {hx(rb(rng, rng.choice([0, 1, 2]) * mbs))}")
+        c.ops.append("ivstate")
+    elif fam == "buf":
+        c = Case(fam, mode, bs, w, key, rb(rng, bs), cls_many=ncalls)
+        for i in range(ncalls):
+            c.ops.append(f"data {hx(rb(rng, rng.choice([0, 1, 1, 2, bs - 1, bs, bs + 1])))}")
+    elif fam == "stream":
+        iv, cls = stream_iv(rng, mode, bs, key)
+        c = Case(fam, mode, bs, w, key, iv, cls_iv=cls, cls_many=ncalls)
+        for i in range(ncalls):
+            c.ops.append(f"apply {hx(rb(rng, rng.choice([0, 1, 1, 2, bs - 1, bs, bs + 1])))}")
+        c.ops.append("corestate")
+    else:
+        iv, cls = stream_iv(rng, mode, bs, key)
+        c = Case(fam, mode, bs, w, key, iv, cls_iv=cls, cls_many=ncalls)
+        for i in range(ncalls):
+            c.ops.append(rng.choice(["ksblock", "ksblock", f"applyblocks {hx(rb(rng, bs))}", f"applyblock {hx(rb(rng, bs))}", "ksblocks 2"]))
+        c.ops.append("ivstate")
+    return c
